@@ -129,7 +129,7 @@ static TA judge_to_ascii(const U32& x, const char* stage, bool quiet = false) {
   }
   t.agree = t.exp == t.got;
   if (t.agree) return t;
-  if (bidi_unreliable(x)) { R.counters["unjudged_bidi_class_unknown_in_15_1"]++; t.agree = true; return t; }
+  if (bidi_unreliable(x)) { R.counters["unjudged_bidi_class_unknown_in_15_1"]++; t.agree = true; t.cls = "unjudged-bidi"; return t; }
   if (V0.to_ascii(in) != t.exp) { R.counters["variant0_differs_from_refidna"]++; }
   int mask = explain(relevant_devs(x), [&](const Variant& v) { return v.to_ascii(in) == t.got; });
   std::string dir = t.got && !t.exp ? "ada-accepts" : (!t.got && t.exp ? "ada-rejects" : "different-output");
@@ -773,7 +773,14 @@ static void c16_one(const U32& x, bool canonical, bool with_url, const char* sta
       std::string family = std::string(gen).substr(0, std::string(gen).find(':'));   // canonical:compose -> canonical
       std::string cls = "orbit-" + family + "/unexplained";
       TA tx = judge_to_ascii(x, "c16", true), ty = judge_to_ascii(y, "c16", true);
-      if (!tx.agree) cls = "orbit-" + family + "/" + tx.cls; else if (!ty.agree) cls = "orbit-" + family + "/" + ty.cls;
+      // the filter above used a verdict that depends on a Bidi class unknown offline: the pair is not judged
+      if (tx.cls == "unjudged-bidi" || ty.cls == "unjudged-bidi") { R.counters["orbit_pairs_unjudged_bidi_class_unknown"]++; continue; }
+      // named after a C06 root cause only if *every* member that ada converts differently from UTS46 is explained by one
+      bool ux = !tx.agree && tx.cls.find("unexplained") != std::string::npos, uy = !ty.agree && ty.cls.find("unexplained") != std::string::npos;
+      if (ux) cls = "orbit-" + family + "/" + tx.cls;
+      else if (uy) cls = "orbit-" + family + "/" + ty.cls;
+      else if (!tx.agree) cls = "orbit-" + family + "/" + tx.cls;
+      else if (!ty.agree) cls = "orbit-" + family + "/" + ty.cls;
       viol(cls, std::string("[") + gen + "] to_ascii(\"" + vis(x) + "\") = " + optshow(adares(ax.ok, ax.out)) + " but to_ascii(\"" + vis(y) + "\") = " + optshow(adares(ay.ok, ay.out)) + " (UTS46 gives both " + optshow(mx) + ")",
            wit("orbit", x).str("other", cps(y)).str("gen", gen).done(), x.size() + y.size());
       continue;
